@@ -505,7 +505,7 @@ def _tiny_sens_models(kind: str):
     return {}
 
 
-def real_engine_case(engine: str, sens_kind: str, seed: int, via_forward_function: bool):
+def real_engine_case(engine: str, sens_kind: str, seed: int, via_forward_function: bool, zero_coil_for_normunet: bool = False):
     """-> (key, what) or None: unit-or-zero + finiteness of the map a real engine computes"""
     from omegaconf import OmegaConf
     from direct.config.defaults import DefaultConfig
@@ -539,7 +539,9 @@ def real_engine_case(engine: str, sens_kind: str, seed: int, via_forward_functio
     b, c = 1 + seed % 2, [1, 2, 3, 4][seed % 4]
     shape = [b, c] + ([2 + seed % 2] if three_d else []) + [8, 8, 2]
     S = torch.randn(shape, generator=g) * (2.0 ** [0, -30, 30, 0][seed % 4])
-    if seed % 3 == 0 and c > 1:
+    # NormUnet divides by the per-sample std of its input: an all-zero coil makes the *network* return NaN (not a real
+    # tensor, outside the property's quantifier) — probed separately in oracle_real_engines and recorded as a note
+    if seed % 3 == 0 and c > 1 and (sens_kind != "normunet2d" or zero_coil_for_normunet):
         S[:, 0] = 0
     if seed % 5 == 0:
         S[..., :2, :, :] = 0
@@ -564,6 +566,7 @@ REAL_ENGINE_CONFIGS = [("VSharpNetEngine", "unet2d"), ("VSharpNetEngine", "normu
 
 def oracle_real_engines(ctx: Ctx, deep: bool):
     rng = ctx.rng
+    probe_normunet_zero_coil(ctx)
     for engine, sk in REAL_ENGINE_CONFIGS:
         for j in range(ctx.budget(3, 30) * (2 if deep else 1)):
             seed = rng.randrange(1, 2 ** 20)
@@ -576,6 +579,17 @@ def oracle_real_engines(ctx: Ctx, deep: bool):
                 res = (f"real-engine-{engine}-raises", f"{engine} ({sk}) raises {err_name(e)}: {str(e)[:200]}")
             if res:
                 yield Violation(res[0], res[1], {"op": "real_engine", "engine": engine, "sens": sk, "seed": seed, "via": via})
+
+
+def probe_normunet_zero_coil(ctx: Ctx):
+    """observation (not a C09 violation: the refinement output is NaN, i.e. not a real tensor)"""
+    try:
+        r = real_engine_case("VSharpNetEngine", "normunet2d", 3 * 7 * 4 + 3, False, zero_coil_for_normunet=True)   # c = 4, zero coil
+        ctx.notes.append("observation: NormUnetModel2d as sensitivity_model with an all-zero coil: "
+                         + ("network output NaN (0/0 in its group norm) -> compute_sensitivity_map returns NaN; no shipped config "
+                            "uses NormUnet as sensitivity model" if r and r[0].endswith("nonfinite") else f"result {r}"))
+    except Exception as e:  # noqa: BLE001
+        ctx.notes.append(f"observation probe failed: {err_name(e)}")
 
 
 def jointicnet_case(seed: int):
